@@ -1,3 +1,4 @@
+#![recursion_limit = "256"]
 mod common;
 mod engine;
 mod props;
@@ -166,6 +167,7 @@ fn drive<P: Prop>(p: &P, a: &Args) -> i32 {
         |i| p.run(&shapes[i]),
         &|i, ints, bools, msg| p.attribute(&shapes[i], ints, bools, msg),
         ExploreOpts {
+            xcheck_every: match a.tier { Tier::Quick => 2003, Tier::Thorough => 20011 },
             recheck_every: p.recheck_every(a.tier),
             seed: a.seed,
             threads: a.threads,
@@ -341,6 +343,7 @@ fn drive<P: Prop>(p: &P, a: &Args) -> i32 {
             "solver_unsat": st.solver_unsat,
             "solver_seconds_cpu": (st.solver_ns as f64) / 1e9,
             "leaves_reexecuted_concretely": st.concrete_replays,
+            "solver_queries_cross_checked_with_cvc5": st.witness.get("solver_queries_cross_checked_with_cvc5").copied().unwrap_or(0),
             "witness_classes": st.witness,
             "measured_maxima": st.maxima,
             "known_finding_paths": n_known,
